@@ -14,7 +14,7 @@ theorem error_rows_print_the_error_document :
 
 theorem error_document_undo :
     outcome { cmd := .undo, json := true, quiet := false, dryRun := false, yes := false, preview := false, noRegex := false,
-              planEmpty := false, failAt := some 0 }
+              commit := false, planEmpty := false, failAt := some 0 }
       = some { stdout := [errorDoc], stderrSites := 1, exitZero := false, performed := [], failed := true } := by decide +kernel
 
 end C19.Part
